@@ -746,7 +746,9 @@ func (up4 *UP4) addOrUpdateGTPTunnelPeer(far far) (bool, error) {
 	return newReference, nil
 }
 
-func (up4 *UP4) removeGTPTunnelPeer(far far) {
+// removeGTPTunnelPeer withdraws the FAR from its tunnel peer and removes the peer if it was the last user.
+// If the entry cannot be deleted from the switch, its ID stays allocated (it is still in use there).
+func (up4 *UP4) removeGTPTunnelPeer(far far) error {
 	up4.tunnelPeerMu.Lock()
 	defer up4.tunnelPeerMu.Unlock()
 
@@ -760,7 +762,7 @@ func (up4 *UP4) removeGTPTunnelPeer(far far) {
 	tnlPeer, exists := up4.tunnelPeerIDs[tunnelParameters]
 	if !exists {
 		removeLog.With("tunnel-params", tunnelParameters).Warnln("GTP tunnel peer ID not found for tunnel params")
-		return
+		return nil
 	}
 
 	removeLog.With("tunnel-peer", tnlPeer)
@@ -773,27 +775,30 @@ func (up4 *UP4) removeGTPTunnelPeer(far far) {
 
 	if tnlPeer.usedBy.Cardinality() != 0 {
 		removeLog.Debugln("GTP tunnel peer was about to be removed, but it's in use by other UE session.")
-		return
+		return nil
 	}
 
 	gtpTunnelPeerEntry, err := up4.p4RtTranslator.BuildGTPTunnelPeerTableEntry(tnlPeer.id, tunnelParameters)
 	if err != nil {
 		removeLog.Errorln("failed to build GTP tunnel peer entry to remove")
-		return
+		return err
 	}
 
 	removeLog.Debugln("removing GTP Tunnel Peer ID")
 
 	if err := up4.p4client.ApplyTableEntries(p4.Update_DELETE, gtpTunnelPeerEntry); err != nil {
 		removeLog.Errorln("failed to remove GTP tunnel peer")
+		return err
 	}
 
 	up4.unsafeReleaseAllocatedGTPTunnelPeer(tunnelParameters)
+
+	return nil
 }
 
 // removeStaleGTPTunnelPeers drops the references that the given (updated) FARs still hold on tunnel
 // peers they no longer send to, e.g. after a handover or when the FAR starts buffering.
-func (up4 *UP4) removeStaleGTPTunnelPeers(fars []far) {
+func (up4 *UP4) removeStaleGTPTunnelPeers(fars []far) error {
 	for _, f := range fars {
 		current := tunnelParams{
 			tunnelIP4Src: ip2int(up4.accessIP.IP),
@@ -820,9 +825,14 @@ func (up4 *UP4) removeStaleGTPTunnelPeers(fars []far) {
 			old := f
 			old.tunnelIP4Dst = params.tunnelIP4Dst
 			old.tunnelPort = params.tunnelPort
-			up4.removeGTPTunnelPeer(old)
+
+			if err := up4.removeGTPTunnelPeer(old); err != nil {
+				return err
+			}
 		}
 	}
+
+	return nil
 }
 
 // Returns error if we reach maximum supported Application IDs.
@@ -1015,7 +1025,9 @@ func (up4 *UP4) updateTunnelPeersBasedOnFARs(fars []far) ([]far, error) {
 // withdrawTunnelPeers undoes the registrations of a request that failed.
 func (up4 *UP4) withdrawTunnelPeers(fars []far) {
 	for _, f := range fars {
-		up4.removeGTPTunnelPeer(f)
+		if err := up4.removeGTPTunnelPeer(f); err != nil {
+			logger.PfcpLog.Warnf("failed to withdraw a tunnel peer: %v", err)
+		}
 	}
 }
 
@@ -1220,7 +1232,7 @@ func verifyPDR(pdr pdr) error {
 	return nil
 }
 
-func (up4 *UP4) resetMeter(meterID uint32, meter meter) {
+func (up4 *UP4) resetMeter(meterID uint32, meter meter) error {
 	entries := make([]*p4.MeterEntry, 0, 2)
 
 	entry := &p4.MeterEntry{
@@ -1242,10 +1254,16 @@ func (up4 *UP4) resetMeter(meterID uint32, meter meter) {
 	if err != nil {
 		logger.PfcpLog.Errorf("failed to reset %v meter entries: %v", p4constants.GetMeterIDToNameMap()[meterID], err)
 	}
+
+	return err
 }
 
-func (up4 *UP4) resetMeters(qers []qer) {
+// resetMeters returns the first error of a meter write. The cells of a meter that could not be reset stay
+// allocated, so that a later attempt can reset and release them.
+func (up4 *UP4) resetMeters(qers []qer) error {
 	logger.PfcpLog.With("qers", qers).Debug("resetting P4 Meters")
+
+	var firstErr error
 
 	for _, qer := range qers {
 		logger := logger.PfcpLog.With("qer", qer)
@@ -1262,14 +1280,28 @@ func (up4 *UP4) resetMeters(qers []qer) {
 
 		switch p4Meter.meterType {
 		case meterTypeApplication:
-			up4.resetMeter(p4constants.MeterPreQosPipeAppMeter, p4Meter)
+			if err := up4.resetMeter(p4constants.MeterPreQosPipeAppMeter, p4Meter); err != nil {
+				if firstErr == nil {
+					firstErr = err
+				}
+
+				continue
+			}
+
 			up4.releaseAppMeterCellID(p4Meter.uplinkCellID)
 
 			if p4Meter.downlinkCellID != p4Meter.uplinkCellID {
 				up4.releaseAppMeterCellID(p4Meter.downlinkCellID)
 			}
 		case meterTypeSession:
-			up4.resetMeter(p4constants.MeterPreQosPipeSessionMeter, p4Meter)
+			if err := up4.resetMeter(p4constants.MeterPreQosPipeSessionMeter, p4Meter); err != nil {
+				if firstErr == nil {
+					firstErr = err
+				}
+
+				continue
+			}
+
 			up4.releaseSessionMeterCellID(p4Meter.uplinkCellID)
 			up4.releaseSessionMeterCellID(p4Meter.downlinkCellID)
 		}
@@ -1282,6 +1314,8 @@ func (up4 *UP4) resetMeters(qers []qer) {
 			fseid: qer.fseID,
 		})
 	}
+
+	return firstErr
 }
 
 func (up4 *UP4) resetCounter(pdr pdr) error {
@@ -1549,7 +1583,9 @@ func (up4 *UP4) sendCreate(all PacketForwardingRules, updated PacketForwardingRu
 			logger.PfcpLog.Warnf("failed to remove the entries of a rejected session: %v", err)
 		}
 
-		up4.resetMeters(updated.qers)
+		if err := up4.resetMeters(updated.qers); err != nil {
+			logger.PfcpLog.Warnf("failed to reset the meters of a rejected session: %v", err)
+		}
 
 		for i := 0; i < countersAllocated; i++ {
 			up4.releaseCounterID(preQosCounterID, uint64(all.pdrs[i].ctrID))
@@ -1622,7 +1658,9 @@ func (up4 *UP4) sendUpdate(all PacketForwardingRules, updated PacketForwardingRu
 	}
 
 	// the sessions entries point to the new tunnel peers now
-	up4.removeStaleGTPTunnelPeers(updated.fars)
+	if err := up4.removeStaleGTPTunnelPeers(updated.fars); err != nil {
+		return ErrOperationFailedWithReason("remove GTP tunnel peer", err.Error())
+	}
 
 	return nil
 }
@@ -1638,10 +1676,15 @@ func (up4 *UP4) sendDelete(deleted PacketForwardingRules, remaining PacketForwar
 			uint64(deleted.pdrs[i].ctrID))
 	}
 
-	up4.resetMeters(deleted.qers)
+	// a failed write means a rejected request, also when it is one of the cleaning-up writes
+	if err := up4.resetMeters(deleted.qers); err != nil {
+		return ErrOperationFailedWithReason("reset P4 Meters", err.Error())
+	}
 
 	for _, f := range deleted.fars {
-		up4.removeGTPTunnelPeer(f)
+		if err := up4.removeGTPTunnelPeer(f); err != nil {
+			return ErrOperationFailedWithReason("remove GTP tunnel peer", err.Error())
+		}
 	}
 
 	for _, p := range deleted.pdrs {
